@@ -5740,6 +5740,7 @@ class TreeSequence:
             self._individuals_population = (
                 self._ll_tree_sequence.get_individuals_population()
             )
+            self._individuals_population.flags.writeable = False
         return self._individuals_population
 
     @property
@@ -5758,6 +5759,7 @@ class TreeSequence:
         """
         if self._individuals_time is None:
             self._individuals_time = self._ll_tree_sequence.get_individuals_time()
+            self._individuals_time.flags.writeable = False
         return self._individuals_time
 
     @property
@@ -5785,6 +5787,7 @@ class TreeSequence:
             self._individuals_location = individuals.location.reshape(
                 (self.num_individuals, n)
             )
+            self._individuals_location.flags.writeable = False
         return self._individuals_location
 
     @property
